@@ -846,7 +846,39 @@ func (v *Vocab) StrayStatements() []*StrayStmt {
 				continue
 			}
 			st := &StrayStmt{Fn: f, Exec: ci}
-			parts, _ := constStringParts(args[0])
+			parts, complete := constStringParts(args[0])
+			if (!complete || len(parts) == 0) && f.Parent() == nil && len(f.Params) > 0 {
+				// the text arrives through a parameter of a shared helper: one statement per call site, read with
+				// the constant argument filled in
+				sites := v.callSitesOf(f)
+				okAll := len(sites) > 0
+				var bound []*StrayStmt
+				for _, site := range sites {
+					bind := map[*ssa.Parameter]ssa.Value{}
+					for i, prm := range f.Params {
+						if i < len(site.Common().Args) {
+							if k, isConst := site.Common().Args[i].(*ssa.Const); isConst {
+								bind[prm] = k
+							}
+						}
+					}
+					pb, cb := constStringPartsBound(args[0], bind)
+					if !cb || len(pb) == 0 {
+						okAll = false
+						break
+					}
+					sql, err := ParseSQL(strings.Join(pb, " "))
+					if err != nil {
+						okAll = false
+						break
+					}
+					bound = append(bound, &StrayStmt{Fn: f, Exec: ci, SQL: sql})
+				}
+				if okAll {
+					out = append(out, bound...)
+					continue
+				}
+			}
 			if len(parts) == 0 {
 				st.Why = "SQL text is not a constant"
 			} else if sql, err := ParseSQL(strings.Join(parts, " ")); err != nil {
@@ -855,6 +887,19 @@ func (v *Vocab) StrayStatements() []*StrayStmt {
 				st.SQL = sql
 			}
 			out = append(out, st)
+		}
+	}
+	return out
+}
+
+// callSitesOf: the static call sites of fn in the module.
+func (v *Vocab) callSitesOf(fn *ssa.Function) []ssa.CallInstruction {
+	var out []ssa.CallInstruction
+	for _, f := range v.P.Funcs {
+		for _, ci := range Calls(f) {
+			if ci.Common().StaticCallee() == fn {
+				out = append(out, ci)
+			}
 		}
 	}
 	return out
